@@ -58,7 +58,7 @@ class VerbHooks(D.DomHooks):
                     return any(k in mro for k in self._classes(args[1]))
                 return False
         ev = state.env.setdefault('__events', [])
-        tex = state.env.get('tex')
+        tex = state.env.get('__tex', state.env.get('tex'))        # (the stream of the scenario, also from inside helpers that have no `tex`)
         used = tex.pos if isinstance(tex, A.Stream) else -1
         mo = re.search(r'\.context\.(pop|push|setVerbatimCatcodes)$', fname)
         if mo:
@@ -149,7 +149,7 @@ def verb_scene(m, cls, name, mode, currenvir, body):
     me.cls = cls
     me.attrs.update(nodeName=name, macroMode=m.class_const(Macro, mode), attributes={}, argSource='')
     tex = A.Stream(chars(d, body))
-    return {'self': me, 'tex': tex, '__ctx': ctx, '__me': me, '__parent': parent}
+    return {'self': me, 'tex': tex, '__tex': tex, '__ctx': ctx, '__me': me, '__parent': parent}
 
 
 def r111(chk, m, rule_id='R11.1'):
